@@ -7,6 +7,7 @@
 //!     printed module and dump the body again.
 //!     answer: `<T0>;<hex printed expr>;<T1>`   or `perr` (input does not parse)
 //!             T1 = `rerr` when the printed module has syntax errors.
+//! `P <width> <hex pattern text>`: the same for a pattern, wrapped as `let <pattern> = x;`.
 //! `M <width> <hex module text>`  (reparse oracle on whole modules)
 //!     answer: `perr` | `ok <n toplevels>` | `rerr:<hex message>` | `diff:<hex T0>:<hex T1>` | `panic:<hex>`
 //! `D <hex module text>`: dump of the module tree (debugging / replay).
@@ -415,6 +416,45 @@ fn op_expr(width: usize, text: &str) -> String {
   format!("{};{};{}", t0, hex(etext.as_bytes()), t1)
 }
 
+/// `P`: a pattern, exercised as `let <pattern> = x;` (pattern parser + `matching_pattern_to_document`).
+fn op_pattern(width: usize, text: &str) -> String {
+  fn let_pattern<'a>(m: &'a Module<()>) -> Option<&'a expr::DeclarationStatement<()>> {
+    match body_of(m)? {
+      expr::E::Block(b) if b.statements.len() == 1 && b.expression.is_none() => match &b.statements[0] {
+        expr::Statement::Declaration(d) => Some(d),
+        _ => None,
+      },
+      _ => None,
+    }
+  }
+  let mut heap = Heap::new();
+  let src = format!("class A {{ function f(): unit = {{ let {text} = x; }} }}");
+  let m0 = match parse(&mut heap, &src) {
+    Ok(m) => m,
+    Err(_) => return "perr".to_string(),
+  };
+  let Some(d0) = let_pattern(&m0) else { return "perr".to_string() };
+  let mut d = Dumper { heap: &heap, out: String::new() };
+  d.pattern(&d0.pattern);
+  let t0 = d.out;
+  let stmt = expr::Statement::Declaration(Box::new(d0.clone()));
+  let stext = samlang_printer::pretty_print_statement(&heap, width, &m0.comment_store, &stmt);
+  let ptext = stext.trim().strip_prefix("let ").and_then(|x| x.strip_suffix("= x;")).unwrap_or("?").to_string();
+  let printed = samlang_printer::pretty_print_source_module(&heap, width, &m0);
+  let t1 = match parse(&mut heap, &printed) {
+    Ok(m1) => match let_pattern(&m1) {
+      Some(d1) => {
+        let mut d = Dumper { heap: &heap, out: String::new() };
+        d.pattern(&d1.pattern);
+        d.out
+      }
+      None => "rerr".to_string(),
+    },
+    Err(_) => "rerr".to_string(),
+  };
+  format!("{};{};{}", t0, hex(ptext.as_bytes()), t1)
+}
+
 fn op_module(width: usize, text: &str) -> String {
   let mut heap = Heap::new();
   let m0 = match parse(&mut heap, text) {
@@ -442,6 +482,7 @@ fn main() {
     let t: Vec<&str> = line.split(' ').collect();
     let r = catch_unwind(AssertUnwindSafe(|| match t[0] {
       "E" | "S" if t.len() == 3 => op_expr(t[1].parse().unwrap_or(100), &unhex_str(t[2])),
+      "P" if t.len() == 3 => op_pattern(t[1].parse().unwrap_or(100), &unhex_str(t[2])),
       "M" if t.len() == 3 => op_module(t[1].parse().unwrap_or(100), &unhex_str(t[2])),
       "D" if t.len() == 2 => {
         let mut heap = Heap::new();
